@@ -175,6 +175,7 @@ class UnitResult:
         self.interpreted = {}
         self.stubbed = {}
         self.src_used = {}
+        self.cache_key_types = {}
 
     def record(self, name, status, backend, model, approx=False):
         o = self.obl.setdefault(name, {'status': 'proved', 'backends': {}, 'model': None, 'n': 0})
@@ -196,6 +197,7 @@ class UnitResult:
             'queries': self.stats.queries, 'solver_s': self.stats.solver_s,
             'by_backend': self.stats.by_backend, 'wall_s': self.wall_s,
             'interpreted': self.interpreted, 'stubbed': self.stubbed, 'src_used': self.src_used,
+            'cache_key_types': {k: sorted(v) for k, v in self.cache_key_types.items()},
         }
 
 
@@ -252,6 +254,8 @@ def explore(pack_name, harness_name, label, params):
                     res.interpreted[k] = res.interpreted.get(k, 0) + v
                 for k, v in interp.stubbed.items():
                     res.stubbed[k] = res.stubbed.get(k, 0) + v
+        for k, v in interp.cache_key_types.items():
+            res.cache_key_types.setdefault(k, set()).update(v)
         for (fn, q), ln in srcdb.used.items():
             res.src_used[f"{os.path.relpath(fn, repo_root())}:{q}"] = list(ln)
     except BaseException as e:          # engine crash
